@@ -41,6 +41,7 @@ CFG = {
                  "C20_repaired_helpers_spec", "C20_judge_accepts_model",
                  "C20_collections_hold_distinct_items", "C20_withdrawals_last_amount_wins", "C20_shared_fields_do_not_merge",
                  "C20_identified_judge_accepts_model", "C20_positional_cases_unchanged",
+                 "C20_network_is_part_of_account", "C20_history_is_overwritten",
                  "C20_ledger_state_rule", "C20_helpers_equal_ledger_state_rule", "C20_ledger_state_premises_needed",
                  "C20_totals_bridge_deposit_implicit", "C20_totals_bridge_ada_only", "C20_totals_bridge_lovelace"],
     "allowed_axioms": [],
@@ -58,7 +59,11 @@ CFG = {
             "alter the deposit parameters themselves), led by every shape in turn and mixed in one body, return addresses on both networks with key and "
             "script credentials; script certificates / withdrawals / guarded proposals enter the builders through add_with_native_script and "
             "add_with_plutus_witness (inline script and reference input) alternately; pool parameters (margin, cost, relays, metadata, reward-account "
-            "network), anchors, DRep choices, MIR pots vary with the identities, so a figure that depends on any of them disagrees; every case is "
+            "network), anchors, DRep choices, MIR pots vary with the identities, so a figure that depends on any of them disagrees; reward accounts "
+            "drawn from a small pool of credentials x key/script x networks {0, 1, 5, 7, 15} (one credential on two networks = two accounts, kept by "
+            "body map, builder and built body); histories of one to four earlier set_certs / set_certs_builder / remove_certs / set_withdrawals / "
+            "set_withdrawals_builder / remove_withdrawals with stale collections on the SAME TransactionBuilder before the final setters (setters "
+            "replace: nothing stale may be left in any figure); corpus totals of exactly 2^64-2, 2^64-1, 2^64 for every figure; every case is "
             "run through real Certificate/Withdrawals/VotingProposals values: helpers on a hand-made body, on its wire round trip and on the "
             "body built by TransactionBuilder, the three sub-builders, the transaction builder and the deprecated set_certs/set_withdrawals; "
             "the sizes of the six collections are compared with the model's merged sizes; "
